@@ -265,6 +265,8 @@ func runC06(c *Ctx, r *Report) {
 	defer c07r5(c, r) // the record's own bytes are kept when the searchable text is a transformation of it
 	defer c06r6(c, r) // nobody writes through an alias of an item's rune storage
 	defer c13r6(c, r) // --tail trimming writes only into chunks of its own
+	defer c06r7(c, r)
+	defer c06r8(c, r)
 
 	// ---------------- R2 ----------------
 	r.rule("C06-R2", "A + B + C", "P1",
